@@ -435,19 +435,36 @@ static void scenario_queue(uint64_t cid, vh::Rng r) {
       producers_left.fetch_sub(1);
     });
   }
+  // fruitless polls completed by every consumer: "nothing is obtainable" is only concluded when EVERY consumer kept polling
+  // in vain during the observation -- a consumer that is descheduled in the middle of a queue operation holds the queue lock
+  // or a task's resources, does not poll, and makes the others starve legitimately (a per-thread poll count alone is a
+  // wall-clock verdict in disguise: it fired once in 72000 thorough histories on a loaded machine, never on replay)
+  std::vector< std::atomic< uint64_t > > polls(C);
+  for (auto &x : polls) x.store(0);
   for (int c = 0; c < C; ++c) {
     th.emplace_back([&, c]() {
       vh::Rng rr = r.fork(3000 + c);
       uint64_t fruitless = 0;
+      uint64_t consumed_seen = 0;
+      std::vector< uint64_t > snap(C, 0);
       while (consumed.load() < total && !giveup.load()) {
         TaskQueue *q = queues[rr.below(nq)];
         const bool steal = rr.chance(0.4);
         const size_t id = steal ? q->try_get_task(tasks) : q->get_task(tasks);
         if (id == NO_TASK) {
+          polls[c].fetch_add(1, std::memory_order_relaxed);
+          if (fruitless == 0 || consumed.load() != consumed_seen) {
+            consumed_seen = consumed.load();
+            for (int k = 0; k < C; ++k) snap[k] = polls[k].load(std::memory_order_relaxed);
+            fruitless = 0;
+          }
           ++fruitless;
-          if (producers_left.load() == 0 && fruitless > 300000) {
-            // nothing obtainable for a very long time although work remains: decide at quiescence below
-            giveup = true;
+          if (producers_left.load() == 0 && fruitless > 300000 && (fruitless & 1023) == 0) {
+            bool all = true;
+            for (int k = 0; k < C; ++k) all = all && polls[k].load(std::memory_order_relaxed) - snap[k] >= 1000;
+            // nothing obtainable by anybody although work remains and nobody is in the middle of an operation: decide at
+            // quiescence below
+            if (all && consumed.load() == consumed_seen) giveup = true;
           }
           if ((fruitless & 63) == 0) std::this_thread::yield();
           continue;
@@ -509,7 +526,7 @@ static void scenario_queue(uint64_t cid, vh::Rng r) {
       TVIOL("queue/not-obtainable-at-quiescence", cid, "%" PRIu64 " tasks are queued and no lock is held, but only %" PRIu64 " could be obtained (%d locks, %" PRIu64 " tasks list one lock twice)",
             left, got, L, same_twice.load());
     else if (giveup.load())
-      TVIOL("queue/starved", cid, "consumers could not obtain any of %" PRIu64 " queued tasks in 3e5 consecutive polls although they were obtainable at quiescence", left);
+      TVIOL("queue/starved", cid, "no consumer could obtain any of %" PRIu64 " queued tasks (every consumer polled >= 1000 times in vain while one of them polled 3e5 times and nothing was handed out) although they were obtainable at quiescence", left);
   }
   for (size_t i = 0; i < total + 16; ++i)
     if (enq[i].load() == 1 && popped[i].load() != 1) {
